@@ -370,7 +370,7 @@ func (x *fleetExec) step(e engine.Event) {
 		done = true
 	case "merge":
 		src := x.nodes[e.M]
-		if src == nil || e.M == e.N || src.mkey != nd.mkey || (nd.exact() && !src.exact()) {
+		if src == nil || e.M == e.N || src.mkey != nd.mkey || (nd.exact() && !src.exact()) || src.dirty {
 			return
 		}
 		if !x.mergeFitsNodes(nd, src) {
